@@ -25,8 +25,9 @@ type Obligation struct {
 	Res   SolveResult
 	File  string
 	// for replay
-	ex *Exec
-	st *State
+	ex      *Exec
+	st      *State
+	results []Val
 }
 
 type nameRec struct {
